@@ -398,6 +398,8 @@ def run(ck, facts):
     import c04
     sub = C.SubCheck(ck, "R4", "", ["R2", "R3"], key_re=r"Type::lifetimes/carriers|recurses-into|extend_implicit")
     c04.run(sub, facts)
+    # "implied bounds spelled out on the method": validate_ty_in_method restates them for every lifetime of the type, the reference's own included (C04.R4)
+    c04.run(C.SubCheck(ck, "R4", "", ["R4"], key_re=r"validate_ty_in_method"), facts)
     parse_rules(ck, "R3", "R4", facts)
 
 
